@@ -83,13 +83,13 @@ theorem C11_lazy_monitor_full_counterexample : ¬ C11_lazy_monitor_full := by
 
 /-- C11 (laziness) in the form of the monitor, at full strength for every parameter the monitor is ever used with:
     when every task name of the input is below `nTasks` (`Bounded`, decidable; the harness passes the number of
-    tasks) and no calc task delivers values after a failed execution (`NoFailDeliver`: `calcResFail` empty, the
-    default; `monLazy` does not know those deliveries yet), `monLazy` holds on the observable trace of every reachable state of the serial and of the parallel
+    tasks; it also asks that a task without actions — whose start is not observable — delivers nothing "after a
+    failed execution"), `monLazy` holds on the observable trace of every reachable state of the serial and of the parallel
     systems — every graph (cyclic ones included), every oracle, every set-iteration order and interleaving.  So no
     task is touched unless it is selected, a (static or delivered) task_dep / calc_dep of a justified task, or a
     setup-task of a justified task that had been chosen for execution (`get_status` reported, no terminal report,
     not ignored, status `run`, all first-stage dependencies finished) when the setup-task was first touched. -/
-theorem C11_lazy_monitor (inp : RunInput) [NoFailDeliver inp] (s : Sys) (hr : Reach inp s ∨ PReach inp s) (nTasks : Nat)
+theorem C11_lazy_monitor (inp : RunInput) (s : Sys) (hr : Reach inp s ∨ PReach inp s) (nTasks : Nat)
     (hb : Bounded inp nTasks) : monLazy inp nTasks (trace inp s) = true := by
   by_cases hser : inp.runner = .serial
   · rcases hr with hr | hr
@@ -99,12 +99,24 @@ theorem C11_lazy_monitor (inp : RunInput) [NoFailDeliver inp] (s : Sys) (hr : Re
     · rw [reach_mismatch hser hr]; exact monLazy_init inp nTasks
     · exact monLazy_of_lm hb.p (preach_ctx hser hr) (preach_lm hb.p hser hr)
 
-instance : NoFailDeliver exChain := ⟨fun _ => rfl⟩
-
 /-- the hypothesis is met by the chain with the right parameter, and there the monitor says yes on the same run -/
 example : Bounded exChain 4 ∧
     monLazy exChain 4 (trace exChain (autoRun exChain false false 400 (init exChain)).1) = true :=
   ⟨by decide, C11_lazy_monitor exChain _ (Or.inl (autoRun_reach (by decide) false false 400 _ Reach.init)) 4 (by decide)⟩
+
+/-- `1` has the calc_dep `0`, whose execution fails after it returned `task_dep: [2]`; `--continue` -/
+def exFailDeliver : RunInput :=
+  { taskDep := fun _ => [], calcDep := fun n => if n = 1 then [0] else [], setup := fun _ => [], sel := [1]
+    continue_ := true, outcome := fun n => if n = 0 then .failed else .ok
+    calcResFail := fun n => if n = 0 then { tasks := [2] } else {} }
+
+/-- deliveries of a failed calc task are covered: `2` is delivered by the failed `0`, it is touched (and executed), and
+    the monitor — whose closure follows `RunMon.resAt` — accepts the run; the hypothesis `Bounded` holds -/
+example : Bounded exFailDeliver 3 ∧
+    (trace exFailDeliver (autoRun exFailDeliver false false 400 (init exFailDeliver)).1).contains (Ev.success 2) = true ∧
+    monLazy exFailDeliver 3 (trace exFailDeliver (autoRun exFailDeliver false false 400 (init exFailDeliver)).1) = true :=
+  ⟨by decide, by decide +kernel,
+    C11_lazy_monitor exFailDeliver _ (Or.inl (autoRun_reach (by decide) false false 400 _ Reach.init)) 3 (by decide)⟩
 
 /-- task `1` is up-to-date and has the setup-task `0` -/
 def exUtdParent : RunInput :=
